@@ -46,6 +46,11 @@ def generate(tier, rng):
             if rng.random() < 0.3:
                 c["ops"][-1] = dict(call, faults={"at": [rng.randrange(0, 8)]})
             yield c
+    for n0, ops in fc.wide_histories(rng, tier):
+        if any(fc.has_nonnode(o) for o in ops):
+            continue
+        yield {"fam": "lockstep", "asrt": False, "n0": n0, "ops": ops, "nmcls": rng.choice(["mixin", "node", "anynode", "eqmixin", "falsymixin"]),
+               "params": _params(rng, 6)}
     for _ in range(250 if tier == "quick" else 4000):
         n0 = rng.randrange(3, 7)
         ops = fc.random_history(rng, n0, rng.randrange(3, 11 if tier == "quick" else 26), nonnode=False)
